@@ -265,8 +265,8 @@ def _evidence(pid, tier, seed, cfg, verdicts, bounded, nviol, wall, note='', sel
                    rule=bounded.get('rule', ''), samples=bounded.get('samples', [])[:6],
                    bounded=dict(label='BOUNDED stand-in, never counted as proved', bounds=bounded.get('bounds'),
                                 kinds=bounded.get('kinds'), wall_s=round(bounded.get('wall_s', 0), 2), contract_monitor=bounded.get('monitor'),
-                                failures=len(bounded.get('failures', []))),
-                   exhaustive=bounded.get('exhaustive', False))
+                                failures=len(bounded.get('failures', [])), not_evaluated_budget_exhausted=bounded.get('not_evaluated', 0)),
+                   exhaustive=bounded.get('exhaustive', False) and not bounded.get('not_evaluated', 0))
     else:
         cov.update(evaluations=len(obligations), distinct_nontrivial=len({(v.fn, v.name) for v in discharged}),
                    rule='deductive obligations only', samples=[v.as_dict() for v in discharged[:3]])
